@@ -402,3 +402,17 @@ pub fn drain<'a, C: ServerContext>(it0: HttpRouterIter<'a, C>) -> (out: Vec<(Str
         }
     }
 }
+
+// ---- the document's operations: the visible part of the listing ----
+pub open spec fn visible_only<C: ServerContext>(s: Seq<Listed<C>>) -> Seq<Listed<C>>
+    decreases s.len()
+{
+    if s.len() == 0 { Seq::empty() }
+    else { (if s[0].1.visible { seq![s[0]] } else { Seq::empty() }) + visible_only(s.skip(1)) }
+}
+pub proof fn visible_only_step<C: ServerContext>(x: Listed<C>, t: Seq<Listed<C>>)
+    ensures visible_only(seq![x] + t) == (if x.1.visible { seq![x] } else { Seq::empty() }) + visible_only(t)
+{
+    assert((seq![x] + t).skip(1) =~= t);
+    assert((seq![x] + t)[0] == x);
+}
